@@ -1,7 +1,7 @@
 \* 1..2 files x 0..2 items; items: long/short header, empty record, entry record, 3 CPU/segment/granularity
 \* combinations (one with cpu >= $80 in the DATA segment); 2 filter lists
 CONSTANTS MaxFiles = 2 MaxItems = 2 Starts = {300} ByteLens = {0, 2} EntryAddrs = {4660}
-  CpuSegGran <- CSG_Three Forms <- Forms_Both Filters <- F_Two Creators <- Cr_One
+  CpuSegGran <- CSG_Three Forms <- Forms_Both Filters <- F_Two Creators <- Cr_One Quiets <- Q_No Dev <- D_None
 SPECIFICATION Spec
 INVARIANTS Conforms StepRunAgrees PrefixOK RoundTrip HeaderRule
 PROPERTY Monotone
